@@ -26,6 +26,7 @@ import (
 	"github.com/oklog/ulid/v2"
 	"github.com/prometheus/client_golang/prometheus"
 
+	"github.com/prometheus/prometheus/model/histogram"
 	"github.com/prometheus/prometheus/model/labels"
 	"github.com/prometheus/prometheus/storage"
 	"github.com/prometheus/prometheus/tsdb"
@@ -541,4 +542,95 @@ func MatchAll(name string) *labels.Matcher {
 // MatchEq selects series with name=value.
 func MatchEq(name, value string) *labels.Matcher {
 	return labels.MustNewMatcher(labels.MatchEqual, name, value)
+}
+
+// ---- open appenders, sample kinds (for "compaction while an appender is open") ----
+
+// Kind is the kind of an appended sample.
+type SampleKind int
+
+const (
+	KFloat SampleKind = iota
+	KHistogram
+	KFloatHistogram
+)
+
+func (k SampleKind) String() string { return [...]string{"float", "histogram", "float-histogram"}[k] }
+
+// OpenTx is an appender that has not been committed or rolled back yet.
+type OpenTx struct {
+	v1 storage.Appender
+	v2 storage.AppenderV2
+}
+
+// Begin opens an appender: DB.Appender (v2 = false) or DB.AppenderV2 (v2 = true).
+func (d *DB) Begin(v2 bool) *OpenTx {
+	if v2 {
+		return &OpenTx{v2: d.DB.AppenderV2(context.Background())}
+	}
+	return &OpenTx{v1: d.DB.Appender(context.Background())}
+}
+
+func minimalHistograms(v float64) (*histogram.Histogram, *histogram.FloatHistogram) {
+	h := &histogram.Histogram{Schema: 0, Count: 1, Sum: v, PositiveSpans: []histogram.Span{{Offset: 0, Length: 1}}, PositiveBuckets: []int64{1}}
+	fh := &histogram.FloatHistogram{Schema: 0, Count: 1, Sum: v, PositiveSpans: []histogram.Span{{Offset: 0, Length: 1}}, PositiveBuckets: []float64{1}}
+	return h, fh
+}
+
+// Append appends one sample of the given kind (histograms are minimal single-bucket ones with Sum = v).
+func (o *OpenTx) Append(l labels.Labels, t int64, v float64, k SampleKind) error {
+	h, fh := minimalHistograms(v)
+	var err error
+	switch {
+	case o.v2 != nil && k == KFloat:
+		_, err = o.v2.Append(0, l, 0, t, v, nil, nil, storage.AppendV2Options{})
+	case o.v2 != nil && k == KHistogram:
+		_, err = o.v2.Append(0, l, 0, t, 0, h, nil, storage.AppendV2Options{})
+	case o.v2 != nil:
+		_, err = o.v2.Append(0, l, 0, t, 0, nil, fh, storage.AppendV2Options{})
+	case k == KFloat:
+		_, err = o.v1.Append(0, l, t, v)
+	case k == KHistogram:
+		_, err = o.v1.AppendHistogram(0, l, t, h, nil)
+	default:
+		_, err = o.v1.AppendHistogram(0, l, t, nil, fh)
+	}
+	return err
+}
+
+func (o *OpenTx) Commit() error {
+	if o.v2 != nil {
+		return o.v2.Commit()
+	}
+	return o.v1.Commit()
+}
+
+func (o *OpenTx) Rollback() error {
+	if o.v2 != nil {
+		return o.v2.Rollback()
+	}
+	return o.v1.Rollback()
+}
+
+// SampleTimes runs Querier(mint,maxt).Select(matchers) and returns the timestamps of ALL samples
+// (floats, histograms, float histograms) per series label string.
+func (d *DB) SampleTimes(mint, maxt int64, ms ...*labels.Matcher) (map[string][]int64, error) {
+	q, err := d.DB.Querier(mint, maxt)
+	if err != nil {
+		return nil, err
+	}
+	defer q.Close()
+	ss := q.Select(context.Background(), true, nil, ms...)
+	out := map[string][]int64{}
+	for ss.Next() {
+		s := ss.At()
+		it := s.Iterator(nil)
+		for it.Next() != chunkenc.ValNone {
+			out[s.Labels().String()] = append(out[s.Labels().String()], it.AtT())
+		}
+		if it.Err() != nil {
+			return nil, it.Err()
+		}
+	}
+	return out, ss.Err()
 }
